@@ -13,7 +13,7 @@ is validated against the same limits clauses.
 
 from __future__ import annotations
 
-from ..core import Ctx
+from ..core import Ctx, MachineryError, VERIF
 from .. import schedlab
 
 META = {
@@ -57,8 +57,41 @@ def model_control(ctx: Ctx) -> None:
     ctx.add_tlc(res)
 
 
+def inductive_part(ctx: Ctx) -> None:
+    """spec/apalache/LimitsInd.tla: the accounting core with ARBITRARY integer limits and demands; Apalache shows
+    IndInv (used = what running jobs hold, 0 <= used <= limit) inductive, and not inductive with the pinned
+    double release.  Thorough tier only (three JVM starts, ~40 s each on an idle machine)."""
+    import shutil
+    import subprocess
+
+    if not shutil.which("apalache-mc"):
+        ctx.note("apalache", "apalache-mc not on PATH: inductive check skipped")
+        return
+    out = ctx.tmp("apalache_out")
+    runs = [("induction step", ["--cinit=ConstInit", "--init=IndInit", "--inv=IndInv", "--length=1"], True),
+            ("initial states", ["--cinit=ConstInit", "--init=Init", "--inv=IndInv", "--length=0"], True),
+            ("control: double release", ["--cinit=ConstInitDev", "--init=IndInit", "--inv=IndInv", "--length=1"], False)]
+    res = {}
+    for name, args, want_ok in runs:
+        p = subprocess.run(["apalache-mc", "check", f"--out-dir={out}"] + args + ["LimitsInd.tla"],
+                           cwd=str(VERIF / "spec" / "apalache"), capture_output=True, text=True, timeout=1800)
+        ok = "EXITCODE: OK" in p.stdout
+        err = "The outcome is: Error" in p.stdout
+        res[name] = "no error" if ok else "invariant violated" if err else f"failed rc={p.returncode}"
+        if not ok and not err:
+            raise MachineryError(f"apalache-mc ({name}) failed: {p.stdout[-1500:]}{p.stderr[-500:]}")
+        if want_ok and not ok:
+            raise MachineryError(f"LimitsInd.tla: IndInv is not inductive ({name}): the accounting model is wrong\n{p.stdout[-1500:]}")
+        if not want_ok:
+            ctx.negative_control(err, "with the pinned double release the induction step must fail")
+    shutil.rmtree(out, ignore_errors=True)
+    ctx.note("apalache_inductive_invariant", res)
+
+
 def run(ctx: Ctx) -> None:
     model_control(ctx)
+    if not ctx.quick:
+        inductive_part(ctx)
     ctx.assume("no job demands more units than a limit (premise shared with C09)",
                "single scheduler thread; executor completions arrive as queue events in any order")
     schedlab.suite(ctx, ON, n_random_progs=ctx.pick(4, 30), n_sim=ctx.pick(80, 1500),
